@@ -131,6 +131,9 @@ func (g *gen) argAlphabet() []interface{} {
 		}
 	}
 	al = append(al, nil, 5, struct{}{}, "", []rscp.Message{})
+	// pointers: the builder keeps the argument itself, whatever it points to (typed nil pointers included)
+	pb, ps, pu := true, "pointee", uint16(9)
+	al = append(al, &pb, &ps, &pu, (*bool)(nil), (*string)(nil), (*[]rscp.Message)(nil))
 	return al
 }
 
@@ -179,6 +182,56 @@ func init() {
 				args = append([]interface{}{rscp.BAT_REQ_DATA}, args...)
 			}
 			buildCase(cw, args, fmt.Sprintf("sampled len=%d", len(args)))
+		}
+		// deep nesting: chains of 1..12 container tags (different and repeated ones), bare, followed by items, and with
+		// items between the levels
+		var containers []rscp.Tag
+		for _, t := range g.known {
+			if t.DataType() == rscp.Container && len(containers) < 40 {
+				containers = append(containers, t)
+			}
+		}
+		item := func() []interface{} {
+			t := g.known[g.pick(len(g.known))]
+			for t.DataType() == rscp.Container {
+				t = g.known[g.pick(len(g.known))]
+			}
+			if t.DataType() == rscp.None {
+				return []interface{}{t}
+			}
+			b := 50
+			return []interface{}{t, g.value(t.DataType(), 0, &b)}
+		}
+		for depth := 1; depth <= 12; depth++ {
+			for variant := 0; variant < 4; variant++ {
+				var args []interface{}
+				for k := 0; k < depth; k++ {
+					if variant%2 == 0 {
+						args = append(args, rscp.BAT_REQ_DATA)
+					} else {
+						args = append(args, containers[g.pick(len(containers))])
+					}
+					if variant == 3 && k < depth-1 {
+						args = append(args, item()...)
+					}
+				}
+				if variant >= 1 {
+					for j := 0; j <= g.pick(3); j++ {
+						args = append(args, item()...)
+					}
+				}
+				buildCase(cw, args, fmt.Sprintf("nested depth=%d variant=%d", depth, variant))
+				if variant == 2 {
+					buildsCase(cw, [][]interface{}{args, args[:len(args)-1], {rscp.BAT_REQ_DATA}}, fmt.Sprintf("nested depth=%d", depth))
+				}
+			}
+		}
+		// pointer arguments in value position
+		for _, ptr := range al[len(al)-6:] {
+			for _, t := range []rscp.Tag{g.byType[rscp.Bool][0], g.byType[rscp.CString][0], g.byType[rscp.UInt16][0]} {
+				buildCase(cw, []interface{}{t, ptr}, "pointer-value")
+				buildCase(cw, []interface{}{rscp.BAT_REQ_DATA, t, ptr, g.byType[rscp.None][0]}, "pointer-value nested")
+			}
 		}
 		// multi-request form
 		buildsCase(cw, nil, "none")
